@@ -11,11 +11,16 @@ CLAIMED = {
          'alternate-id lookup and select iteration hand back the very object the application holds (C04_get/byalt/select_returns_held); '
          'unpickling an existing held row raises instead of creating a second instance (C04_unpickle_no_duplicate); without unpickling a '
          'deleted row is never handed out, cache on or off (C04_deleted_not_returned_partial); a destroyed instance is never registered '
-         '(C04_cached_is_current). The two open findings (expire purges the map; unpickling a destroyed row) carry refutation witnesses. The model is tied to the code by '
+         '(C04_cached_is_current). Model/OrmPaths.v adds the access paths through another object -- a foreign-key attribute (read the key, then get) and a '
+         'MultipleJoin accessor (select the referencing ids, then get each) -- and every theorem is re-proved for histories with them (C04_paths_*, '
+         'C04_fk_returns_held, C04_join_returns_held, C04_join_yields_referencing_rows) and for histories in which any operation runs with a database '
+         'error injected at any statement (C04_*_with_faults). The two open findings (expire purges the map; unpickling a destroyed row) carry refutation witnesses. The model is tied to the code by '
          'running it (vm_compute) against the real SQLObject after every operation, incl. identity tokens and cache contents.'),
    note=('Trusted: Coq kernel; the hand-written model Model/Orm.v (validated only by the correspondence); CPython refcounting and sqlite '
-         'modelled; access paths in the model: get, select, alternate id, unpickle, create (foreign-key attributes and join accessors go through '
-         'SQLObject.get and are exercised by C13). Guard: histories without expire/expireAll/cache.clear()/raw SQL/injected faults.'),
+         'modelled; access paths in the model: get, select, alternate id, unpickle, create, foreign key by id, MultipleJoin; the descriptors\' own glue '
+         '(refColumn keys, SingleJoin, RelatedJoin, per-instance connections, Transactions) is exercised by an oracle-only relation stream with real '
+         'descriptors in three connection modes. Guard: histories without expire/expireAll/cache.clear()/raw SQL (injected faults are admitted by the '
+         '*_with_faults theorems).'),
    technique='Coq proof (inductive invariant over all reachable states of an executable ORM+cache model) + vm_compute correspondence against sqlite',
    design='3/C04, 9.2'),
  'C05': dict(
@@ -23,11 +28,14 @@ CLAIMED = {
          'assign/multi-column set valid or failing/sync/syncUpdate/destroy/drop/cull; cache on/off; eager, lazy and cacheValues=False classes) '
          'every cached attribute of every held undestroyed instance equals the stored row (the pending value on a lazy object) (C05_coherent) '
          'and every explicit read returns it (C05_read); from ANY state sync() shows the stored row or raises not-found (C05_sync_refreshes) '
-         'and expire() followed by a read does too (C05_expire_then_read). The consequence of the open identity findings of C04 (a second '
+         'and expire() followed by a read does too, whatever was cached and whether or not the instance was flagged expired already '
+         '(C05_expire_then_read, C05_expire_always_refreshes); the coherence invariant also holds for histories in which any operation runs with a '
+         'database error injected at any statement (C05_coherent_with_faults). The consequence of the open identity findings of C04 (a second '
          'instance after expire goes stale) carries a refutation witness. Tied to the code by the vm_compute correspondence after every operation '
          'and a coherence oracle (every cached attribute vs a raw SELECT after every step).'),
    note=('Trusted: Coq kernel; the hand-written model Model/Orm.v (validated only by the correspondence); sqlite modelled. Guard: histories '
-         'without expire/expireAll/cache.clear()/raw SQL/faults/pickling (the two refresh theorems hold on arbitrary states and cover out-of-band changes).'),
+         'without expire/expireAll/cache.clear()/raw SQL/pickling (injected faults are admitted by C05_coherent_with_faults; the refresh theorems hold on '
+         'arbitrary states and cover out-of-band changes).'),
    technique='Coq proof (inductive coherence invariant over all reachable states of an executable ORM model) + vm_compute correspondence against sqlite',
    design='3/C05, 9.2'),
  'C13': dict(
@@ -241,19 +249,23 @@ CLAIMED = {
          '(C16_dirty_iff_pending, invariant over all reachable states); from any state no operation other than syncUpdate/sync/pickling sends '
          'an UPDATE to the lazy class (C16_no_update_before_flush); syncUpdate sends exactly one UPDATE of exactly the pending columns and '
          'leaves exactly the latest pending values in the row (C16_flush_exact); a lazy assignment shows and queues the value and sends nothing '
-         '(C16_lazy_assignment). The model is tied to the code by running it (vm_compute) against the real SQLObject on sqlite after every '
+         '(C16_lazy_assignment); whatever the history (expire, reloads, faults, out-of-band SQL included) a held object never shows anything else '
+         'than the pending value for a column with an unwritten assignment, and reading such a column returns it (C16_pending_always_shown, '
+         'C16_read_returns_pending; true since fix ab43260); inserts and deletes stay immediate (C16_insert_immediate, C16_delete_immediate). The model is tied to the code by running it (vm_compute) against the real SQLObject on sqlite after every '
          'operation of generated histories (outcome, SQL log, tables, passive object state, cache contents).'),
    note=('Trusted: Coq kernel; the hand-written model Model/Orm.v (validated only by the correspondence); sqlite and CPython refcounting are '
-         'modelled; one fixture class per sqlmeta variant with Int columns. Immediate insert/delete is proved in a later round (statements in Proofs/OrmSpec.v).'),
+         'modelled; one fixture class per sqlmeta variant with Int columns (converting column types on lazy classes are C01\'s).'),
    technique='Coq proof (invariant over all reachable states of an executable ORM model) + vm_compute correspondence against sqlite',
    design='3/C16'),
  'C06': dict(
    text=('Machine-checked proof (Coq 8.16.1) over the ORM model: from ANY state, an attribute assignment, multi-column set, syncUpdate or '
          'destroySelf that raises (invalid value in any position, NOT NULL/UNIQUE rejection, stale handle, or a database error injected at any '
-         'statement index) leaves heap, slots, tables, cache and pickles exactly as before (C06_failing_write_changes_nothing). Creation is '
-         'refuted for a database error at the re-read after the INSERT (C06_create_reread_fault_refuted; open finding) and otherwise covered '
-         'by the correspondence and oracle; its theorem is stated in Proofs/OrmSpec.v and proved in a later round. Restricting references and '
-         'cascades belong to C12, subclass inserts to C15.'),
+         'statement index) leaves heap, slots, tables, cache and pickles exactly as before (C06_failing_write_changes_nothing); on every '
+         'reachable state a create that raises changes nothing (C06_create_atomic, C06_create_fault_atomic) except for a database error at the '
+         're-read after the INSERT (C06_create_reread_fault_refuted; open finding); after any history with injected errors no instance is '
+         'registered for a row that does not exist (C06_no_unregistered_rows) and after ANY call that raised every held instance still shows its '
+         'stored row (C06_coherent_after_failure). Restricting references and cascades belong to C12, subclass inserts to C15; failing subclass '
+         'creates / multi-column sets on an inheritance chain and creates with caller-chosen ids are judged by oracle-only streams.'),
    note=('Trusted: Coq kernel; the hand-written model Model/Orm.v (validated only by the correspondence: outcome, SQL log, all tables, passive '
          'state of every held object and cache contents after every operation, with fault injection through the connection\'s _executeRetry); '
          'sqlite statement-level atomicity in autocommit mode is modelled.'),
